@@ -109,6 +109,17 @@ def run(res, tier, seed, model_ok, search):
             if mo is not None and own > frac(mo) + Fraction(1, 10**9):
                 res.violate("order-limit-breached", "an order risking %s was let through with max_order_exposure %s (%s)" % (
                     float(own), mo, line[:300]), payloads[-1])
+            ms_ = strategy.max_selection_exposure
+            if ms_ is not None:
+                # the selection limit as the control reckons it: the worst case of the selection's other orders (the replaced order
+                # excluded) on the side this order loses on, plus this order in full
+                views = [C16.raw_view(byid[sp["id"]], sp) for sp in specs if sp["sel"] == osp["sel"] and not (kind == "REPLACE" and sp is osp)]
+                ww, wl = C16.worst(views) if views else (Fraction(0), Fraction(0))
+                cur = -(wl if order.side == "BACK" else ww)
+                if cur + own > frac(ms_) + Fraction(3, 100):
+                    res.violate("replace-accepted-over-the-selection-limit" if kind == "REPLACE" else "selection-limit-breached",
+                                "a %s risking %s was let through on top of %s already at risk on the selection, max_selection_exposure %s (%s)" % (
+                                    kind, float(own), float(cur), ms_, line[:300]), payloads[-1])
             if kind == "PLACE" and not vok:
                 res.violate("validate-order-ignored", "strategy.validate_order refused the order and the control let it through (%s)" % line[:300],
                             payloads[-1])
